@@ -512,10 +512,12 @@ public:
    */
   void deleteNode(Nref nodeObject)
   {
-    // first deleting the node in the graph
+    // first deleting the node in the graph: every observer of the graph,
+    // this one included, is told to forget it (deletedNodesUpdate)
     getGraph()->deleteNode(getNodeGraphid(nodeObject));
-    // then forgetting
-    dissociateNode(nodeObject);
+    // then forgetting, if the graph did not tell
+    if (hasNode(nodeObject))
+      dissociateNode(nodeObject);
   }
 
 
